@@ -8,6 +8,8 @@
 (* start) that was executed, and the projected state observed after it     *)
 (* (both queues, unfinished_tasks, what the caller received so far, the    *)
 (* exception that reached the caller, where every worker stands).          *)
+(* A recorded execution may hold several calls on one pool object: the     *)
+(* event "newcall" carries the header of the next call.                    *)
 (***************************************************************************)
 EXTENDS Pool, Json, IOUtils, TLCExt
 
@@ -30,7 +32,8 @@ TraceInit ==
   /\ n \in MinN .. MaxN /\ size \in Sizes /\ entry \in Entries /\ fail \subseteq Items(n)
   /\ cpc = "call" /\ ci = 0 /\ phase = 0 /\ culprit = None /\ buf = {} /\ nextR = 0 /\ out = <<>> /\ raised = None
   /\ taskQ = <<>> /\ unfinished = 0 /\ resultQ = <<>>
-  /\ wn = [k \in WLoc |-> 0] /\ hold = [i \in Items(n) |-> "-"]
+  /\ wn = [k \in WLoc |-> 0] /\ hold = [i \in Ids |-> "-"]
+  /\ base = 0 /\ calls = 1 /\ threads = 0
 
 \* the operation the caller is about to execute at each program point
 COp ==
@@ -45,12 +48,13 @@ COp ==
     [] cpc = "fDoneT" -> <<"task_done", "task">>
     [] cpc = "fGetR" -> <<"get_nowait", "result">>
     [] cpc = "fDoneR" -> <<"task_done", "result">>
+    [] cpc = "done" -> <<"newcall", "-">>
     [] OTHER -> <<"-", "-">>
 
 Ev ==
   \/ /\ E.c = "consumer"
      /\ <<E.op, E.q>> = COp
-     /\ Consumer
+     /\ IF E.op = "newcall" THEN NewCallWith(E.call.n, ToSet(E.call.fail), E.call.raise, E.call.entry) ELSE Consumer
   \/ /\ E.c # "consumer"
      /\ \/ E.op = "start" /\ WStart
         \/ E.op = "get" /\ E.q = "task" /\ (WGetTask \/ WGetNone)
@@ -66,7 +70,7 @@ ObsOK ==   \* projected state logged with the event = state of the model after t
   /\ raised' = E.raised
   /\ (cpc' = "done") = E.done
   /\ wn' = [k \in WLoc |-> E.wn[k]]
-  /\ \A i \in Items(n) : hold'[i] = E.hold[i + 1]
+  /\ \A i \in Ids : hold'[i] = (IF i < Len(E.hold) THEN E.hold[i + 1] ELSE "-")
 
 TraceNext ==
   /\ l <= Len(Tr.ev)
